@@ -144,8 +144,10 @@ impl<'a> Font<'a> {
 
     /// evaluate an ItemVariationStore delta at coords
     pub fn ivs_delta(ivs: &ItemVariationStore, outer: u16, inner: u16, coords: &[f64]) -> Result<f64, String> { Self::ivs_delta_s(ivs, outer, inner, coords).map(|x| x.0) }
-    /// (delta, sum of the scalars of the regions with a non-zero delta)
-    pub fn ivs_delta_s(ivs: &ItemVariationStore, outer: u16, inner: u16, coords: &[f64]) -> Result<(f64, f64), String> {
+    /// (delta, sum of the scalars of the active regions of this delta set)
+    pub fn ivs_delta_s(ivs: &ItemVariationStore, outer: u16, inner: u16, coords: &[f64]) -> Result<(f64, f64), String> { Self::ivs_delta_sn(ivs, outer, inner, coords).map(|x| (x.0, x.1)) }
+    /// (delta, sum of active scalars, number of regions the delta set refers to)
+    pub fn ivs_delta_sn(ivs: &ItemVariationStore, outer: u16, inner: u16, coords: &[f64]) -> Result<(f64, f64, usize), String> {
         let regions = ivs.variation_region_list().map_err(|e| format!("ivs regions: {e}"))?;
         let data = ivs.item_variation_data().get(outer as usize).ok_or_else(|| format!("ivs: no data {outer}"))?.map_err(|e| format!("ivs data {outer}: {e}"))?;
         let idx = data.region_indexes();
@@ -165,9 +167,10 @@ impl<'a> Font<'a> {
                 scalar *= if v < p { (v - s) / (p - s) } else { (e - v) / (e - p) };
             }
             total += scalar * delta as f64;
-            if delta != 0 { ssum += scalar; }
+            ssum += scalar; // a delta that rounded to 0 still carries a rounding error
+            if std::env::var_os("VF_DEBUG_IVS").is_some() { eprintln!("ivs {outer}/{inner} region {ri} {:?} scalar {scalar} delta {delta}", region.region_axes().iter().map(|a| (a.start_coord().to_f32(), a.peak_coord().to_f32(), a.end_coord().to_f32())).collect::<Vec<_>>()); }
         }
-        Ok((total, ssum))
+        Ok((total, ssum, idx.len()))
     }
 
     pub fn map_index(map: Option<&DeltaSetIndexMap>, gid: u16) -> Result<(u16, u16), String> {
